@@ -1224,6 +1224,52 @@ Proof.
   destruct (run_seq compute_elem (if b then nontriv_ids st else emap_ids st) (elems st)). exact R.
 Qed.
 
+(** the caller's view has an entry for every listed key *)
+Lemma ghost_keys (fixed : bool) (van : quad -> bool) (nidx : nat) (ops : list cop) (k : quad) :
+  qfind k (snd (run fixed van nidx ops)) = None -> qfind k (emap (fst (run fixed van nidx ops))) = None.
+Proof.
+  unfold run.
+  apply (fold_left_inv (fun sg : cstate * gmap => qfind k (snd sg) = None -> qfind k (emap (fst sg)) = None)).
+  - intros [st g] op _. unfold rstep. cbn [fst snd]. destruct (cstep fixed van nidx st op) as [st' o]. cbn [fst snd].
+    assert (Gs : forall g0, qfind k (gsync g0 st') = None -> qfind k (emap st') = None).
+    { intros g0 H. rewrite qfind_gsync in H. destruct (qfind k (emap st')); [discriminate H|reflexivity]. }
+    intros H. destruct op as [qs|qs|b|q'|q'|q'|q' n]; cbn [gstep] in H.
+    + apply (Gs []). rewrite qfind_gall in H. destruct (qfind k (gsync [] st')); [discriminate H|reflexivity].
+    + apply (Gs []). rewrite qfind_gall in H. destruct (qfind k (gsync [] st')); [discriminate H|reflexivity].
+    + apply (Gs g). destruct o; try exact H.
+      rewrite qfind_gall in H. destruct (qfind k (gsync g st')); [discriminate H|reflexivity].
+    + apply (Gs g). exact H.
+    + apply (Gs g). rewrite qfind_graise in H. destruct (qfind k (gsync g st')); [discriminate H|reflexivity].
+    + apply (Gs g). destruct o; try exact H.
+      rewrite qfind_graise in H. destruct (qfind k (gsync g st')); [discriminate H|reflexivity].
+    + apply (Gs g). exact H.
+  - intros _. reflexivity.
+Qed.
+
+(** Repaired container, every history: when every listed quadruple is at least Prepared in the caller's view, a bulk
+    computation returns normally. *)
+Theorem bulk_compute_succeeds_general : forall (van : quad -> bool) (nidx : nat) (ops : list cop) (b : bool),
+  (forall k s, qfind k (snd (run true van nidx ops)) = Some s -> status_leb Prepared s = true) ->
+  snd (cstep true van nidx (fst (run true van nidx ops)) (ComputeAll b)) = OUnit.
+Proof.
+  intros van nidx ops b H.
+  pose proof (run_all unit (fun _ _ => tt) (fun _ _ => tt) tables_ok_unit van nidx ops) as [[I K] [[F1 F2] G]].
+  cbn [cstep]. unfold compute_all.
+  set (st := fst (run true van nidx ops)) in *.
+  assert (R : snd (run_seq compute_elem (if b then nontriv_ids st else emap_ids st) (elems st)) = OUnit).
+  { apply run_seq_compute_ok. intros e He.
+    assert (En : exists k p, qfind k (emap st) = Some (e, p)).
+    { destruct b.
+      - destruct (nontriv_ids_entry _ _ K He) as [q0 Gq]. destruct (F2 _ _ Gq) as [p Fe]. exists q0, p. exact Fe.
+      - apply emap_ids_entry; assumption. }
+    destruct En as [k [p Fe]].
+    destruct (qfind k (snd (run true van nidx ops))) as [s|] eqn:Gk.
+    - destruct (G _ _ Gk) as [e' [p' [q0 [s' [Fe' [Ee O]]]]]]. fold st in Fe'. rewrite Fe in Fe'. inversion Fe'. subst e' p'.
+      exists q0, s'. split; [exact Ee|]. eapply status_leb_trans; [apply (H _ _ Gk)|exact O].
+    - apply ghost_keys in Gk. fold st in Gk. congruence. }
+  destruct (run_seq compute_elem (if b then nontriv_ids st else emap_ids st) (elems st)). exact R.
+Qed.
+
 (** * The theorems of C13 *)
 
 Section Main.
@@ -1389,3 +1435,69 @@ Proof.
   - destruct (lookup (fst (run fixed van nidx ops)) q') as [st1 r1] eqn:L. inversion C. subst st'.
     destruct (lookup_spec unit (fun _ _ => tt) (fun _ _ => tt) tables_ok_unit _ _ _ _ L I0) as [_ [[M _] _]]. apply M. exact Lb.
 Qed.
+
+(** * The container as read on 2026-09-26 (fill clears ElementsMap only) violates the statements *)
+
+Definition q0101 : quad := (0, 1, 0, 1)%nat.
+Definition nowhere_vanishing : quad -> bool := fun _ => false.
+
+(** prepareAll(S); prepareAll(S); computeAll(split): the caller has prepared and computed (0,1,0,1) through the bulk
+    calls, the bulk computation returned normally, and the evaluation throws: computeAll_split went through the stale
+    NonTrivialElements entry of the first prepareAll, the element found by the lookup was never computed. *)
+Theorem container_refines_spec_refuted :
+  exists (van : quad -> bool) (nidx : nat) (ops : list cop) (q : quad) (n : triple),
+    qfind q (snd (run false van nidx ops)) = Some Computed /\
+    eval_out false van nidx (fst (run false van nidx ops)) q n = OThrows UncomputedPart.
+Proof.
+  exists nowhere_vanishing, 2%nat, [PrepareAll [q0101]; PrepareAll [q0101]; ComputeAll true], q0101, (0, 0, 0).
+  vm_compute. split; reflexivity.
+Qed.
+
+Theorem listed_elements_evaluable_refuted :
+  exists (van : quad -> bool) (nidx : nat) (ops : list cop) (b : bool) (st' : cstate) (q : quad) (n : triple),
+    cstep false van nidx (fst (run false van nidx ops)) (ComputeAll b) = (st', OUnit) /\
+    isInContainer st' q = true /\
+    eval_out false van nidx st' q n = OThrows UncomputedPart.
+Proof.
+  exists nowhere_vanishing, 2%nat, [PrepareAll [q0101]; PrepareAll [q0101]], true.
+  eexists. exists q0101, (0, 0, 0). split; [vm_compute; reflexivity|]. vm_compute. split; reflexivity.
+Qed.
+
+(** fill(S); prepareAll(S); computeAll(split) throws "Object status mismatch": the stale element of the fill was never prepared *)
+Theorem bulk_compute_succeeds_refuted :
+  exists (van : quad -> bool) (nidx : nat) (ops : list cop) (qs : list quad) (b : bool),
+    snd (cstep false van nidx (fst (run false van nidx (ops ++ [PrepareAll qs]))) (ComputeAll b)) = OThrows StatusMismatch.
+Proof.
+  exists nowhere_vanishing, 2%nat, [Fill [q0101]], [q0101], true. vm_compute. reflexivity.
+Qed.
+
+(** * The hypotheses of the theorems are satisfiable by non-trivial histories *)
+
+Definition example_history : list cop :=
+  [PrepareAll [q0101]; ComputeAll true; Lookup (0, 0, 1, 1)%nat; PrepareAll [(0, 0, 0, 1)%nat; q0101];
+   Eval (1, 1, 1, 1)%nat (0, 0, 0); PrepareAll [q0101; (1, 1, 0, 0)%nat]; ComputeAll true;
+   PrepareElem (0, 0, 1, 0)%nat; ComputeElem (0, 0, 1, 0)%nat; Lookup (1, 1, 1, 0)%nat].
+
+(* an alias key (1,0,0,1) of the stored (0,1,0,1) after repeated prepareAll with different sets, and the alias (0,0,1,0)
+   of an element obtained on demand, are both Computed in the caller's view; the evaluation passes permuted frequencies *)
+Example container_refines_spec_hyp :
+  qfind (1, 0, 0, 1)%nat (snd (run true nowhere_vanishing 2 example_history)) = Some Computed /\
+  qfind (0, 0, 1, 0)%nat (snd (run true nowhere_vanishing 2 example_history)) = Some Computed /\
+  qfind (1, 1, 1, 0)%nat (snd (run true nowhere_vanishing 2 example_history)) = Some Constructed /\
+  eval_out true nowhere_vanishing 2 (fst (run true nowhere_vanishing 2 example_history)) (1, 0, 0, 1)%nat (0, 1, 2)
+  = OVal (-1) q0101 (1, 0, 2) /\
+  eval_out true nowhere_vanishing 2 (fst (run true nowhere_vanishing 2 example_history)) (0, 0, 0, 1)%nat (0, 1, 2)
+  = OVal (-1) (0, 0, 1, 0)%nat (0, 1, -1).
+Proof. vm_compute. repeat split; reflexivity. Qed.
+
+Example listed_elements_evaluable_hyp :
+  snd (cstep true nowhere_vanishing 2 (fst (run true nowhere_vanishing 2 [PrepareAll []; Lookup q0101])) (ComputeAll true)) = OUnit /\
+  length (emap (fst (run true nowhere_vanishing 2 [PrepareAll []]))) = 16%nat /\
+  length (nontriv (fst (run true nowhere_vanishing 2 [PrepareAll []]))) = 9%nat.
+Proof. vm_compute. repeat split; reflexivity. Qed.
+
+(* a bulk computation may legitimately throw: an element obtained on demand was not prepared *)
+Example compute_all_may_throw :
+  snd (cstep true nowhere_vanishing 2 (fst (run true nowhere_vanishing 2 [PrepareAll [q0101]; Lookup (0, 0, 0, 0)%nat])) (ComputeAll false))
+  = OThrows StatusMismatch.
+Proof. vm_compute. reflexivity. Qed.
